@@ -426,6 +426,18 @@ func (x *Exec) callbackFor(p *ssa.Parameter) *Effects {
 func (x *Exec) call(st *State, i *ssa.Call) {
 	res := x.doCall(st, &i.Call, i, i.Pos())
 	x.regs[i] = res
+	// ghost variables of the function under verification that follow calls of this callee
+	if f, ok := i.Call.Value.(*ssa.Function); ok && x.fc != nil && i.Parent() == x.fn {
+		for _, g := range x.fc.Ghosts {
+			if e := g.On[lastName(funcKey(f))]; e != nil {
+				env := x.envFor(x.fn, st, x.entry, nil)
+				env.locals = true
+				env.pos = i.Pos()
+				x.bindResults(env, nil, f.Signature.Results(), res)
+				st.ghost[g.Name] = x.scalar(x.eval(e, env).V)
+			}
+		}
+	}
 }
 
 func (x *Exec) doCall(st *State, call *ssa.CallCommon, instr ssa.Instruction, pos token.Pos) Value {
@@ -917,6 +929,14 @@ func (x *Exec) applyContract(st *State, fc *FuncContract, names []string, tys []
 	}
 	envPost := &Env{x: x, st: st, old: pre, names: binds, callee: true, pkg: cpkg}
 	x.bindResults(envPost, fc, results, res)
+	// the callee's own ghost variables are unknown to its callers: unconstrained
+	for _, g := range fc.Ghosts {
+		if tv := x.eval(g.Init, envPre); x.scalar(tv.V).sort == SBool {
+			envPost.names[g.Name] = TV{Sc{c.Fresh("cg_"+g.Name, SBool)}, types.Typ[types.Bool]}
+		} else {
+			envPost.names[g.Name] = TV{Sc{c.Fresh("cg_"+g.Name, SInt)}, types.Typ[types.Int]}
+		}
+	}
 	for _, cl := range fc.Ensures {
 		if cl.Hidden {
 			continue // proved in the callee's body, not revealed to callers (keeps caller queries small)
